@@ -68,6 +68,7 @@ type runner struct {
 	fp     pool.FilePool
 	bitmap bool
 	base   pool.SectorAllocator // the real bitmap allocator, when used
+	sa     pool.SectorAllocator // the allocator handed to the pool
 	files  []*ofile
 	drv    *hx.Driver
 	out    *outcome
@@ -77,6 +78,9 @@ type runner struct {
 	// bitmap allocator; judged by the monitors only (no Lean model of the stack)
 	quota              bool
 	maxFiles, maxBytes int64
+	// mode "G": device of several GiB (sparse), sectors reserved directly from the real allocator
+	giant    bool
+	reserved [][2]int // (first, count) runs taken directly from the allocator
 }
 
 // remaining quota as the byte-array oracle sees it: maxFiles - #open files, maxBytes - sum of sizes.
@@ -114,10 +118,15 @@ func newRunner(cfg string, drv *hx.Driver, out *outcome) (*runner, error) {
 	}
 	ss, err1 := strconv.Atoi(w[1])
 	nsec, err2 := strconv.Atoi(w[2])
-	if err1 != nil || err2 != nil || ss < 1 || nsec < 0 || nsec > 100000 {
+	giant := w[3] == "G" // simulated multi-GiB device: sparse device, real bitmap allocator, monitor-only
+	if err1 != nil || err2 != nil || ss < 1 || nsec < 0 || (nsec > 100000 && !giant) || nsec > 1<<25 {
 		return nil, fmt.Errorf("bad cfg line %q", cfg)
 	}
-	r := &runner{drv: drv, out: out, bitmap: w[3] == "B" || w[3] == "Q", quota: w[3] == "Q"}
+	r := &runner{drv: drv, out: out, bitmap: w[3] == "B" || w[3] == "Q" || giant, quota: w[3] == "Q", giant: giant}
+	if giant {
+		r.drv = nil
+		drv = nil
+	}
 	if r.quota {
 		mf, e1 := strconv.ParseInt(w[4], 10, 64)
 		mb, e2 := strconv.ParseInt(w[5], 10, 64)
@@ -134,10 +143,14 @@ func newRunner(cfg string, drv *hx.Driver, out *outcome) (*runner, error) {
 		r.exec(strings.ReplaceAll(line, ",", " "))
 		r.nested = false
 	}
-	r.dev = &fakeDevice{e: r.e, data: make([]byte, ss*nsec)}
 	// the device starts out full of foreign-looking garbage: nothing of it may ever be readable
-	for i := range r.dev.data {
-		r.dev.data[i] = 0xE0 | byte(i%31+1)
+	if giant {
+		r.dev = &fakeDevice{e: r.e, sparse: map[int64][]byte{}, size: int64(ss) * int64(nsec)}
+	} else {
+		r.dev = &fakeDevice{e: r.e, data: make([]byte, ss*nsec), size: int64(ss * nsec)}
+		for i := range r.dev.data {
+			r.dev.data[i] = garbage(int64(i))
+		}
 	}
 	var sa pool.SectorAllocator
 	if r.bitmap {
@@ -147,6 +160,7 @@ func newRunner(cfg string, drv *hx.Driver, out *outcome) (*runner, error) {
 		a := &scriptedAllocator{accounting: newAccounting(r.e)}
 		r.acct, sa = &a.accounting, a
 	}
+	r.sa = sa
 	r.fp = pool.NewBlockDeviceBackedFilePool(r.dev, sa, ss)
 	if r.quota {
 		r.fp = pool.NewQuotaEnforcingFilePool(r.fp, uint64(r.maxFiles), uint64(r.maxBytes))
@@ -371,6 +385,25 @@ func (r *runner) exec(line string) (ok bool) {
 			r.count("new-with-nonzero-hole-source")
 		}
 		return r.monitorAfter() && r.ask(opPart, fmt.Sprintf("ok %d", len(r.files)-1)) && r.dumpCheck(false)
+	case opw[0] == "reserve" && len(opw) == 2:
+		// take sectors directly from the real allocator: space in use by files that are not modelled
+		n, ok1 := atoi(opw[1])
+		if !ok1 || n < 0 || !r.giant || r.sa == nil {
+			return true
+		}
+		for n > 0 {
+			first, count, err := r.sa.AllocateContiguous(int(n))
+			if err != nil || count < 1 {
+				break
+			}
+			r.reserved = append(r.reserved, [2]int{int(first), count})
+			n -= int64(count)
+		}
+		r.count("op-reserve")
+		if r.acct.nUsed > r.e.nsec/2 {
+			r.out.flags["beyond-half-of-giant-device"] = true
+		}
+		return r.monitorAfter()
 	case opw[0] == "v" && len(opw) == 1:
 		r.out.steps--
 		for id, f := range r.files {
@@ -712,6 +745,9 @@ func (r *runner) monitorAfter() bool {
 			}
 		}
 	}
+	for _, rr := range r.reserved {
+		refs += rr[1]
+	}
 	if refs != r.acct.nUsed {
 		return r.fail("%d sectors are allocated but the open files reference %d: sectors leaked", r.acct.nUsed, refs)
 	}
@@ -754,8 +790,15 @@ func (r *runner) epilogue() bool {
 			return false
 		}
 	}
+	for _, rr := range r.reserved {
+		r.sa.FreeContiguous(uint32(rr[0]), rr[1])
+	}
+	r.reserved = nil
+	if r.e.viol != "" {
+		return r.fail("%s", r.e.viol)
+	}
 	if r.acct.nUsed != 0 {
-		return r.fail("after closing all files %d sectors are still allocated: %v", r.acct.nUsed, r.acct.usedList())
+		return r.fail("after closing all files %d sectors are still allocated", r.acct.nUsed)
 	}
 	if r.acct.allocs != r.acct.frees {
 		return r.fail("%d sectors were allocated but %d were freed", r.acct.allocs, r.acct.frees)
@@ -1207,9 +1250,91 @@ func generate(rng *hx.Rand, drv *hx.Driver) ([]string, outcome) {
 	return g.lines, out
 }
 
+// generateGiant builds and runs a history on a simulated device of 8-64 GiB: a few sectors are
+// written through two files first, then sectors are reserved directly from the real allocator so
+// that what is allocated next lies just below / across a multiple of 4 GiB, then ordinary operations
+// follow; every file is checked against its byte-array oracle as usual (monitor-only).
+func generateGiant(rng *hx.Rand) ([]string, outcome) {
+	ss := []int{4096, 4096, 4096, 512}[rng.Intn(4)]
+	mark := (1 << 32) / ss // sectors per 4 GiB
+	nsec := 2 * mark
+	if ss == 4096 {
+		nsec = []int{2 * mark, 2*mark + 5, 4 * mark, 16 * mark}[rng.Intn(4)]
+	}
+	cfg := fmt.Sprintf("cfg %d %d G", ss, nsec)
+	out := outcome{flags: map[string]bool{}, hist: map[string]int{}}
+	g := &gen{r: rng, ss: ss, nsec: nsec, maxIdx: 24, faulty: rng.Chance(1, 3), inter: rng.Chance(1, 4), lines: []string{cfg}}
+	r, err := newRunner(cfg, nil, &out)
+	if err != nil {
+		out.mismatch = err.Error()
+		return g.lines, out
+	}
+	g.run = r
+	ok := true
+	for i := 0; ok && i < 2+rng.Intn(2); i++ {
+		ok = g.newFile()
+	}
+	// low sectors owned by the first files
+	for i := 0; ok && i < 2+rng.Intn(4); i++ {
+		f := r.files[i%2]
+		ok = g.emit(fmt.Sprintf("w %d %d %s | S1", i%2, rng.Intn(3*ss), g.data(f.tag, 1+rng.Intn(3*ss))))
+	}
+	if ok {
+		target := mark * (1 + rng.Intn(min(nsec/mark-1, 2))) // 4 GiB or 8 GiB
+		next := target - rng.Intn(13) + rng.Intn(3)
+		if rng.Chance(1, 8) {
+			next = rng.Intn(nsec - 64)
+		}
+		ok = g.emit(fmt.Sprintf("reserve %d", max(next-r.acct.nUsed, 0)))
+	}
+	n := len(g.lines) + 25 + rng.Intn(50)
+	for ok && len(g.lines) < n {
+		ok = g.next()
+	}
+	if out.monitor == "" && out.mismatch == "" {
+		r.epilogue()
+	}
+	out.flags["giant-device"] = true
+	out.hist["cfg-alloc-G"]++
+	out.hist["cfg-ss-"+strconv.Itoa(ss)]++
+	return g.lines, out
+}
+
+// offsetTie compares blockDeviceBackedFile.toDeviceOffset (through the verif hook) with its
+// fixed-width Lean model on one (sector, sectorSizeBytes, offsetWithinSector) triple.
+func offsetTie(line string, drv *hx.Driver) (exp, act string, ok bool) {
+	var sector uint32
+	var ss, ow int
+	if _, err := fmt.Sscanf(line, "off %d %d %d", &sector, &ss, &ow); err != nil {
+		return "", "", true
+	}
+	act = strconv.FormatInt(pool.VerifToDeviceOffset(ss, sector, ow), 10)
+	exp, err := drv.Ask(line)
+	if err != nil {
+		exp = "driver-error " + err.Error()
+	}
+	return exp, act, exp == act
+}
+
+func offsetLines(rng *hx.Rand) []string {
+	var lines []string
+	for _, ss := range []int{1, 2, 3, 8, 512, 4096, 65536, 1 << 31} {
+		wrap := uint64(1<<32) / uint64(ss)
+		for _, s1 := range []uint64{0, 1, 1<<20 - 1, 1 << 20, wrap - 1, wrap, wrap + 1, 2*wrap + 1, 1<<32 - 2, rng.Uint64() % (1<<32 - 1)} {
+			if s1 > 1<<32-2 {
+				continue
+			}
+			for _, ow := range []int{0, ss - 1, rng.Intn(ss)} {
+				lines = append(lines, fmt.Sprintf("off %d %d %d", s1+1, ss, ow))
+			}
+		}
+	}
+	return lines
+}
+
 func main() {
 	o := hx.ParseFlags()
-	res := hx.NewResult("filepool", o, "random write/read/truncate/seek/len/close histories over 1-6 simultaneously open files (<= 10 per history) of the real block-device-backed pool; sector sizes {1,2,3,8,512}, devices of 1-130 sectors, scripted or real bitmap allocator, tagged non-zero hole sources, offsets at sector boundaries +-1 and around the file size, faults injected into device reads/writes, hole-source reads/seeks/Truncate/Close and allocations; in a third of the histories operations are interleaved: a complete write/read/truncate on ANOTHER file runs (re-entrantly, deterministically) in the middle of an operation, when one of its hole-source reads or device reads/writes is entered - judged by the same per-file oracle and accounting, and compared with the model as 'nested operation first, then the outer one'; a sixth of the histories run the whole real stack (quota-enforcing pool over the block-device pool over the bitmap allocator) monitor-only: byte-array oracle, exact acceptance/refusal of every NewFile/WriteAt/Truncate against files+bytes quota computed from the oracle's sizes, and after closing everything the full file and byte quota and the full sector capacity must be allocatable again; non-trivial = the history re-used a freed sector, shrank a file into the middle of a sector, and wrote to at least two files; distinct = hash of the op list")
+	res := hx.NewResult("filepool", o, "random write/read/truncate/seek/len/close histories over 1-6 simultaneously open files (<= 10 per history) of the real block-device-backed pool; sector sizes {1,2,3,8,512}, devices of 1-130 sectors, scripted or real bitmap allocator, tagged non-zero hole sources, offsets at sector boundaries +-1 and around the file size, faults injected into device reads/writes, hole-source reads/seeks/Truncate/Close and allocations; in a third of the histories operations are interleaved: a complete write/read/truncate on ANOTHER file runs (re-entrantly, deterministically) in the middle of an operation, when one of its hole-source reads or device reads/writes is entered - judged by the same per-file oracle and accounting, and compared with the model as 'nested operation first, then the outer one'; one history in forty runs on a simulated device of 8-64 GiB (sparse block device, 4 KiB or 512 B sectors, real bitmap allocator, monitor-only) where sectors are reserved directly from the allocator so that files receive sectors just below / across a multiple of 4 GiB; toDeviceOffset is compared with its fixed-width Lean model on boundary sector numbers through a verif hook; a sixth of the histories run the whole real stack (quota-enforcing pool over the block-device pool over the bitmap allocator) monitor-only: byte-array oracle, exact acceptance/refusal of every NewFile/WriteAt/Truncate against files+bytes quota computed from the oracle's sizes, and after closing everything the full file and byte quota and the full sector capacity must be allocatable again; non-trivial = the history re-used a freed sector, shrank a file into the middle of a sector, and wrote to at least two files; distinct = hash of the op list")
 	drv, err := hx.StartDriver("filepool")
 	if err != nil {
 		fmt.Fprintln(os.Stderr, "cannot start model driver:", err)
@@ -1261,6 +1386,18 @@ func main() {
 			fmt.Fprintln(os.Stderr, err)
 			os.Exit(3)
 		}
+		if len(f.History) > 0 && strings.HasPrefix(f.History[0], "off ") {
+			if exp, act, ok := offsetTie(f.History[0], drv); !ok {
+				res.Report(hx.Finding{Kind: "mismatch", Property: prop, History: f.History[:1], Expected: exp, Actual: act,
+					What: "toDeviceOffset differs from its fixed-width model: " + f.History[0],
+					Name: "tie of blockDeviceBackedFile.toDeviceOffset to Model/FilePool.lean toDeviceOffset (theorems C15.device_offset_exact, C15.device_ranges_disjoint)",
+					Sig:  hx.Sig(prop, "filepool", f.History[0])})
+			}
+			res.Evaluations = 1
+			res.ModelLines = drv.Lines
+			res.Write(o)
+			return
+		}
 		out := run(f.History, drv)
 		res.Evaluations = out.steps
 		if out.monitor != "" || out.mismatch != "" {
@@ -1276,6 +1413,19 @@ func main() {
 		histories = 4000 * o.Scale
 	}
 	rng := hx.NewRand(o.Seed)
+	// tie of toDeviceOffset (machine arithmetic) on boundary values; a disagreement is reported at the
+	// end unless a history shows the property itself broken
+	var offsetFinding *hx.Finding
+	for _, l := range offsetLines(rng) {
+		res.Evaluations++
+		res.Count("offset-tie")
+		if exp, act, ok := offsetTie(l, drv); !ok && offsetFinding == nil {
+			offsetFinding = &hx.Finding{Kind: "mismatch", Property: prop, History: []string{l}, Expected: exp, Actual: act,
+				What: "toDeviceOffset differs from its fixed-width model: " + l,
+				Name: "tie of blockDeviceBackedFile.toDeviceOffset to Model/FilePool.lean toDeviceOffset (theorems C15.device_offset_exact, C15.device_ranges_disjoint)",
+				Sig:  hx.Sig(prop, "filepool", l)}
+		}
+	}
 	var firstMismatch []string
 	var firstMismatchOut outcome
 	extra := -1 // histories still to run after the first model mismatch, looking for a monitor hit
@@ -1283,7 +1433,13 @@ func main() {
 		if extra > 0 {
 			extra--
 		}
-		lines, out := generate(rng, drv)
+		var lines []string
+		var out outcome
+		if h%40 == 7 {
+			lines, out = generateGiant(rng)
+		} else {
+			lines, out = generate(rng, drv)
+		}
 		res.Evaluations += out.steps
 		res.TracesVsImpl++
 		keys := make([]string, 0, len(out.flags))
@@ -1307,6 +1463,9 @@ func main() {
 	}
 	if len(res.Findings) == 0 && firstMismatch != nil {
 		report(firstMismatch, firstMismatchOut)
+	}
+	if len(res.Findings) == 0 && offsetFinding != nil {
+		res.Report(*offsetFinding)
 	}
 	res.ModelLines = drv.Lines
 	res.Write(o)
